@@ -465,6 +465,29 @@ def r2_overheads(ck, cx):
                         and rp_txt and rp_txt in U(e._sub.left):
                     # the bytes returned by the first read are called read_min in the messages
                     peeks.setdefault(cn, set()).add(U(e._sub.left).replace(rp_txt, 'read_min'))
+    # the exception branch (function code >= 0x80): what is read after the first min_size bytes is the rest of an EXCEPTION frame,
+    # i.e. _calculate_exception_length() - min_size -- the per-framer exception length decided above, ASCII doubling included
+    nexc = 0
+    for p in cx.enum(f3, tm, max_depth=1, max_paths=400000, resolver=_priv):
+        annotate(p, heap=False)
+        if contradictory(p):
+            continue
+        exc_branch = False
+        for e in p.ev:
+            t = getattr(e, '_sub', None)
+            if e.kind == 'cond' and isinstance(t, ast.Compare) and len(t.ops) == 1 and cx.ce.try_ev(t.comparators[0], f3.mod, tm) == 0x80:
+                ge = isinstance(t.ops[0], (ast.GtE, ast.Gt))
+                exc_branch = (e.a is True) == ge if isinstance(t.ops[0], (ast.GtE, ast.Gt, ast.Lt, ast.LtE)) else exc_branch
+        reads = [e for e in p.ev if e.kind == 'call' and callee_name(e.node) == 'recvPacket' and getattr(e, '_sub', None) is not None and e._sub.args]
+        if not exc_branch or len(reads) < 2:
+            continue
+        nexc += 1
+        arg = U(reads[1]._sub.args[0])
+        ck.ob('R2', f3.qn, 'exception reply: the second read asks for _calculate_exception_length() - min_size bytes', '_calculate_exception_length()' in arg,
+              detail='exception-read-size-not-from-exception-length', loc=cx.floc(f3, reads[1].node),
+              message='_recv reads `%s` bytes to complete an exception reply instead of the exception length of the framer minus what was already read: on a framing '
+                      'whose exception frame is not 2 PDU bytes + binary overhead (ASCII: hex doubling) the read stops short of the frame end' % arg[:80])
+    ck.floor('R2', nexc, 2, 'exception-reply paths of _recv')
     mins = {k: (list(v)[0] if len(v) == 1 else None) for k, v in mins.items()}
     peeks = {k: (list(v)[0] if len(v) == 1 else None) for k, v in peeks.items()}
     for kind in ('tcp', 'rtu', 'ascii', 'binary'):
